@@ -1,14 +1,5 @@
 #![allow(dead_code)]
-#[macro_use]
-mod runner;
-mod fxtable;
-mod led;
-mod lgen;
-mod model;
-mod proc;
-mod props;
-mod rat;
-mod tool;
+use cgtverif::{props, runner, tool};
 
 use runner::{Ctx, Tier, Verdict};
 
